@@ -49,6 +49,7 @@ def mc_cfg(pool, maxnodes, maxrank, maxdim, final_only=False, mikinds=("fixed", 
         f"NEnv = {getattr(pool, 'ntlc', pool.nenv)}",
         "EnvDirs <- MC_EnvDirs",
         f"NDir = {getattr(pool, 'ndir', 0)}",
+        f"SeedTerm = \"{getattr(pool, 'seed_term', '') or ''}\"",
         "Lits <- MC_Lits",
         "Zeros <- MC_Zeros",
         "IdxPool <- MC_IdxPool",
